@@ -39,8 +39,12 @@ def _pwm(cols, dtype="float64"):
 def _run(Qs, Ts, case, n_jobs, chunk=0, n_nearest=None):
     numba.set_parallel_chunksize(chunk)
     try:
-        return tomtom([q.copy() for q in Qs], [t.copy() for t in Ts], n_nearest=n_nearest, n_score_bins=case.get("n_score_bins", 100),
-                      n_target_bins=case.get("n_target_bins"), reverse_complement=case["rc"], n_jobs=n_jobs)
+        Qc, Tc = [q.copy() for q in Qs], [t.copy() for t in Ts]
+        out = tomtom(Qc, Tc, n_nearest=n_nearest, n_score_bins=case.get("n_score_bins", 100),
+                     n_target_bins=case.get("n_target_bins"), reverse_complement=case["rc"], n_jobs=n_jobs)
+        if not (len(Qc) == len(Qs) and len(Tc) == len(Ts) and all(numpy.array_equal(a, b) and a.dtype == b.dtype for a, b in zip(Qc + Tc, list(Qs) + list(Ts)))):
+            raise Violation("tomtom-inputs-modified", "the query / target arrays (or lists) handed to tomtom were changed")
+        return out
     finally:
         numba.set_parallel_chunksize(0)
 
